@@ -75,7 +75,7 @@ func checkC19(ctx *Ctx) {
 		return
 	}
 	quietLogs()
-	n := ctx.N(160, 3000)
+	n := ctx.N(1600, 12000)
 	every := 1
 	if !ctx.Quick() {
 		every = 3
